@@ -5,7 +5,7 @@ cd "$(dirname "$0")"
 export CARGO_NET_OFFLINE=true
 mkdir -p .cache logs evidence replays
 # Engine K: compile the harness crate once (dependencies are cached in the target dir).
-(cd kani && cargo kani --target-dir ../.cache/kani-target/shared --only-codegen >../logs/setup.kani.log 2>&1) || { tail -30 logs/setup.kani.log; exit 1; }
+(cd kani && cargo kani --target-dir ../.cache/kani-target/shared -Z unstable-options -Z stubbing --only-codegen >../logs/setup.kani.log 2>&1) || { tail -30 logs/setup.kani.log; exit 1; }
 # Engine S: build runtime + twins and validate them (when present).
 if [ -x lib/sym_setup.sh ]; then lib/sym_setup.sh; fi
 echo setup ok
